@@ -4,9 +4,10 @@ PROP = {'counts': {'quick': 4, 'thorough': 60},
  'rule': 'one case = one loopback cluster of the real packages (primary engine + replication.Manager in '
          'primary mode, replica engine + replication.Manager in replica mode, a TCP forwarder in between) '
          'and a scenario: primary workload (single puts/deletes, transactions, ApplyBatch, long runs of '
-         'writes, FlushImMemTables) interleaved with the replica joining, being stopped/restarted/reopened, '
-         'and the link being cut and healed; at every settle the harness waits until the full scans of both '
-         'engines are equal and stay equal for 1 s, or until the bound (12 s quick, 30 s thorough); the '
+         'writes, transactions around the 100-entry response limit, FlushImMemTables = log rotation) '
+         'interleaved with the replica joining, being stopped/restarted/reopened, and the link being cut '
+         'and healed; at every settle the harness waits until the full scans of both engines are equal '
+         'and stay equal for 1 s, or until the bound (12 s quick, 30 s thorough); the '
          "replica's scan and last applied sequence at each settle are compared with the extracted ReplProto "
          'model; oracle = equality of the full scans within the bound for a running replica with the link '
          'up; non-trivial = at least one settle, >= 3 sequence numbers, a transaction or delete, and a '
@@ -14,12 +15,11 @@ PROP = {'counts': {'quick': 4, 'thorough': 60},
  'assumptions': ['the replica is configured through replication.ReplicaConfig with RetryBaseDelay 300 ms '
                  '(default 1 s) and DialTimeout 2 s; everything else is what cmd/kevo passes (nil primary '
                  'config = defaults, ForceReadOnly)',
-                 'memtables are large (no automatic flush): the primary rotates its log only at an explicit '
+                 'memtables are large (no automatic flush): the primary rotates its log at the explicit '
                  'FlushImMemTables of the scenario',
-                 'generated scenarios are free of races between a burst of writes and the replica catching '
-                 'up (bursts of >= 2 sequence numbers, settle before flush/stop/cut): the outcome does not '
-                 'depend on timing; the first response of a fresh stream reaches the waiting receiver'],
- 'partial': '"bounded time" is rounds in the model (C14_converges_partial: 2*(N+1-expected)+3 good ticks plus '
-            'the number of lost/sidelined deliveries) and a wall-clock bound in the run; the full statement '
-            'C14_converges_statement is refuted by two classes of histories (rotation, last write equal '
-            'to the session start; a third one, the transaction cut by the 100-entry response limit, was repaired by f62340e and is kept as a regression case)'}
+                 'the first response of a fresh stream reaches the waiting receiver (a stall of more than 1 s '
+                 'between opening a stream and its first response is not modelled)'],
+ 'partial': '"bounded time" is rounds in the model (C14_converges: 2*(lacking sequence numbers)+3 rounds plus '
+            'the number of lost / side-lined deliveries) and a wall-clock bound in the run; the schedule of the '
+            "replica's state machine (which receiver gets a message, which handler applies it) is quantified "
+            'over in the theorem and sampled by the run'}
